@@ -9,13 +9,13 @@ cd "$(dirname "$0")/.."
 wt=/tmp/confirmwt-$id-$$
 log=$(mktemp)
 git -C /repo worktree add -q $wt HEAD || exit 2
-cleanup() { git -C /repo worktree remove --force $wt 2>/dev/null; rm -rf .build/mod; }
+cleanup() { git -C /repo worktree remove --force $wt 2>/dev/null; rm -rf .build/mod/$(printf %s "$wt" | sha1sum | cut -c1-8); }
 trap cleanup EXIT
 patch=$src/patch.diff
 [ -f $src/patch_at_e9bbd1f.diff ] && ! (cd $wt && git apply --check $patch 2>/dev/null) && patch=$src/patch_at_e9bbd1f.diff
 demo=$(ls $src | grep -E '^zz_seed.*_test\.go$|^main\.go$' | head -1)
 run=$(cat $src/run.txt)
-pkgs=$(grep -E '^\+\+\+ b/' $patch | sed 's#^+++ b/##' | xargs -n1 dirname | sort -u)
+pkgs=$(grep -E '^\+\+\+ b/' $patch | sed 's#^+++ b/##' | xargs -n1 dirname | grep -v '/_' | sort -u)
 demodir=$(echo "$run" | grep -oE '\./[A-Za-z0-9_/]+' | head -1)
 [ -z "$demodir" ] && demodir=./$(echo $pkgs | awk '{print $1}')
 export GOFLAGS=-mod=mod
